@@ -143,8 +143,33 @@ def parse_compile(body):
             info["emit"] = n[2]
             info["arity"] = EMIT[n[2]]
             info["emit_args"] = [render(a) for a in n[4]]
-    # other style: let reg = compile_register!(self.x) expanded into blocks bound to named locals
     info["regs"] = [regs[i] for i in sorted(regs)]
+    if not regs:
+        # other style: `let out_reg = compile_register!(self.x)` - every register is a named local bound to a block that takes `.addr()` of a field, and
+        # the emit call lists those locals: register k is the field behind the k-th register argument of emit_* (the first argument is the function id)
+        named = {}
+        for st in find(body, "let"):
+            if len(st) == 4 and st[2] is not None and is_node(st[1]) and st[1][0] == "pident":
+                for m in find(st[2], "mcall"):
+                    if m[2] == "addr":
+                        named[st[1][1]] = self_field(m[1]) or render(m[1])
+                        break
+        if named:
+            for n in walk(body):
+                if n[0] == "mcall" and n[2] in EMIT and path_of(n[1]) and "::" not in path_of(n[1]):
+                    order = []
+                    for a in n[4][1:]:
+                        e = a
+                        while is_node(e) and e[0] in ("ref", "paren", "cast") or (is_node(e) and e[0] == "mcall" and e[2] == "clone"):
+                            e = e[2] if e[0] == "ref" else e[1]
+                        nm = path_of(e) if is_node(e) else None
+                        if nm in named:
+                            order.append(named[nm])
+                        else:
+                            order = []
+                            break
+                    if order:
+                        info["regs"] = order
     return info
 
 
